@@ -23,43 +23,94 @@ PeekTag(tape, i) == LET j == PeekOff(tape, i) IN IF j >= Len(tape) THEN "end" EL
 
 NumText(tape, i) == CanonNum(Pay(tape, i + 1))
 
-\* state: [i |-> cursor (offset of the current live word), stk |-> seq of "r"/"a"/"o", key |-> expecting a member name, out |-> bytes]
-RECURSIVE MRun(_, _, _)
-MRun(tape, sb, st) ==
+\* state: [i |-> cursor (offset of the current live word), stk |-> seq of "r"/"a"/"o", key |-> expecting a member name,
+\*         out |-> bytes, skip |-> the iterator was positioned by Advance on a container and still owes the jump over it]
+\* hi is the end of the iterator's scope (its tape slice): Len(tape) for the document iterator, the end of one value for the
+\* iterators AdvanceIter / NextElement / FindKey / Root hand out, the end of the ENCLOSING container for Array.Iter() and for the
+\* callbacks of Array.ForEach / Object.ForEach.  The result is [out, err]; err stands for "MarshalJSON returns an error".
+RECURSIVE MRun(_, _, _, _)
+MRun(tape, sb, st, hi) ==
   LET i == st.i IN
-  IF i >= Len(tape) THEN st.out
+  IF i >= hi THEN [out |-> st.out, err |-> st.stk # <<>>]           \* "objects or arrays not closed"
   ELSE
   LET t   == Tag(tape, i)
       top == IF st.stk = <<>> THEN "none" ELSE st.stk[Len(st.stk)]
+      Peek(j) == LET k == PeekOff(tape, j) IN IF k >= hi THEN hi ELSE k
+      Fail == [out |-> st.out, err |-> TRUE]
       \* what follows a completed value: separator decision by peeking, then advance
       After(out1, nxt, stk1) ==
-        LET pk == PeekTag(tape, nxt)
+        LET k  == Peek(nxt)
+            pk == IF k >= hi THEN "end" ELSE Tag(tape, k)
             topk == IF stk1 = <<>> THEN "none" ELSE stk1[Len(stk1)]
-            sep == IF topk = "a" /\ pk # "]" THEN <<44>>
+            sep == IF pk = "end" THEN <<>>
+                   ELSE IF topk = "a" /\ pk # "]" THEN <<44>>
                    ELSE IF topk = "o" /\ pk # "}" THEN <<44>>
                    ELSE <<>>
-        IN MRun(tape, sb, [i |-> PeekOff(tape, nxt), stk |-> stk1, key |-> (topk = "o"), out |-> out1 \o sep])
+        IN MRun(tape, sb, [i |-> k, stk |-> stk1, key |-> (topk = "o"), out |-> out1 \o sep, skip |-> FALSE], hi)
+      \* entering a container: the first member - or, for the machine that honours a pending skip, whatever follows the container
+      Enter(kind, ch) ==
+        MRun(tape, sb, [i |-> Peek(IF st.skip THEN Pay(tape, i) ELSE i + 1), stk |-> Append(st.stk, kind), key |-> (kind = "o"),
+                        out |-> st.out \o <<ch>>, skip |-> FALSE], hi)
   IN
   CASE t = "r" ->
          IF Pay(tape, i) > i      \* opening root
-         THEN MRun(tape, sb, [i |-> PeekOff(tape, i + 1), stk |-> Append(st.stk, "r"), key |-> FALSE, out |-> st.out])
-         ELSE \* closing root: newline if another root follows
-              LET nxt == PeekOff(tape, i + 1)
-                  nl  == IF nxt < Len(tape) THEN <<10>> ELSE <<>>
-              IN MRun(tape, sb, [i |-> nxt, stk |-> SubSeq(st.stk, 1, Len(st.stk) - 1), key |-> FALSE, out |-> st.out \o nl])
+         THEN IF st.stk # <<>> THEN Fail
+              ELSE MRun(tape, sb, [i |-> Peek(i + 1), stk |-> <<"r">>, key |-> FALSE, out |-> st.out, skip |-> FALSE], hi)
+         ELSE \* closing root: the scope of a per-root iterator ends here; otherwise newline if another root follows
+              IF st.stk = <<>> THEN [out |-> st.out, err |-> FALSE]
+              ELSE IF top # "r" THEN Fail
+              ELSE LET nxt == Peek(i + 1)
+                       nl  == IF nxt < hi THEN <<10>> ELSE <<>>
+                   IN MRun(tape, sb, [i |-> nxt, stk |-> SubSeq(st.stk, 1, Len(st.stk) - 1), key |-> FALSE, out |-> st.out \o nl, skip |-> FALSE], hi)
     [] t \in {"\"", "\"m"} /\ st.key ->          \* member name: "name":  then the value
-         MRun(tape, sb, [i |-> PeekOff(tape, i + 2), stk |-> st.stk, key |-> FALSE,
-                         out |-> st.out \o QuoteStr(StrAt(tape, sb, i)) \o <<58>>])
+         IF Peek(i + 2) >= hi THEN Fail
+         ELSE MRun(tape, sb, [i |-> Peek(i + 2), stk |-> st.stk, key |-> FALSE,
+                              out |-> st.out \o QuoteStr(StrAt(tape, sb, i)) \o <<58>>, skip |-> FALSE], hi)
+    [] st.key /\ t # "}" -> Fail                 \* "expected key within object"
     [] t \in {"\"", "\"m"} -> After(st.out \o QuoteStr(StrAt(tape, sb, i)), i + 2, st.stk)
     [] t \in {"l", "u", "d"} -> After(st.out \o NumText(tape, i), i + 2, st.stk)
     [] t = "n" -> After(st.out \o <<110, 117, 108, 108>>, i + 1, st.stk)
     [] t = "t" -> After(st.out \o <<116, 114, 117, 101>>, i + 1, st.stk)
     [] t = "f" -> After(st.out \o <<102, 97, 108, 115, 101>>, i + 1, st.stk)
-    [] t = "[" -> MRun(tape, sb, [i |-> PeekOff(tape, i + 1), stk |-> Append(st.stk, "a"), key |-> FALSE, out |-> st.out \o <<91>>])
-    [] t = "{" -> MRun(tape, sb, [i |-> PeekOff(tape, i + 1), stk |-> Append(st.stk, "o"), key |-> TRUE, out |-> st.out \o <<123>>])
-    [] t = "]" -> After(st.out \o <<93>>, i + 1, SubSeq(st.stk, 1, Len(st.stk) - 1))
-    [] t = "}" -> After(st.out \o <<125>>, i + 1, SubSeq(st.stk, 1, Len(st.stk) - 1))
-    [] OTHER -> st.out \o <<63>>                 \* unknown tag: never on a well-formed tape
+    [] t = "[" -> Enter("a", 91)
+    [] t = "{" -> Enter("o", 123)
+    [] t = "]" -> IF top # "a" THEN Fail ELSE After(st.out \o <<93>>, i + 1, SubSeq(st.stk, 1, Len(st.stk) - 1))
+    [] t = "}" -> IF top # "o" THEN Fail ELSE After(st.out \o <<125>>, i + 1, SubSeq(st.stk, 1, Len(st.stk) - 1))
+    [] OTHER -> Fail                             \* unknown tag: never on a well-formed tape
 
-MachineOutput(tape, sb) == MRun(tape, sb, [i |-> PeekOff(tape, 0), stk |-> <<>>, key |-> FALSE, out |-> <<>>])
+Start(i, skip) == [i |-> i, stk |-> <<>>, key |-> FALSE, out |-> <<>>, skip |-> skip]
+MachineOutput(tape, sb) == MRun(tape, sb, Start(PeekOff(tape, 0), FALSE), Len(tape)).out
+
+(***************************************************************************)
+(* Iterators positioned on INNER values.  Every live value position p of   *)
+(* the tape, with the end of the value and the end of the container around *)
+(* it (kind "r": directly under a root).                                   *)
+(***************************************************************************)
+RECURSIVE PosV(_, _, _, _), PosItems(_, _, _, _)
+PosV(tape, i, enc, kind) ==
+  LET me == [p |-> i, end |-> NextOf(tape, i), enc |-> enc, kind |-> kind] IN
+  IF Tag(tape, i) \in {"[", "{"}
+  THEN {me} \cup PosItems(tape, Live(tape, i + 1), Pay(tape, i), Tag(tape, i) = "{")
+  ELSE {me}
+PosItems(tape, i, enc, isObj) ==
+  IF Tag(tape, i) \in {"]", "}"} THEN {}
+  ELSE LET vi == IF isObj THEN Live(tape, i + 2) ELSE i
+       IN PosV(tape, vi, enc, IF isObj THEN "o" ELSE "a") \cup PosItems(tape, Live(tape, NextOf(tape, vi)), enc, isObj)
+RECURSIVE PosRoots(_, _)
+PosRoots(tape, i) ==
+  LET j == Live(tape, i) IN
+  IF j >= Len(tape) THEN {}
+  ELSE PosV(tape, Live(tape, j + 1), Pay(tape, j), "r") \cup PosRoots(tape, Pay(tape, j))
+
+\* scoped on the value: exactly the value's text.  Scope reaching to the end of the enclosing array / object (whose closing tag
+\* then meets an empty stack): refused - never a text that denotes something else.  `skip` selects the machine that honours the
+\* pending jump of an Advance-positioned iterator (the behaviour before fix a88567b): InnerAgrees(TRUE) must FAIL.
+InnerAgrees(tape, sb, skip) ==
+  \A q \in PosRoots(tape, 0) :
+     LET v == ReadV(tape, sb, q.p).v
+         s == MRun(tape, sb, Start(q.p, FALSE), q.end)
+         u == MRun(tape, sb, Start(q.p, skip), q.enc)
+     IN HasNonFinite(v) \/
+        /\ ~s.err /\ s.out = Render(v)
+        /\ q.kind \in {"a", "o"} => u.err
 =============================================================================
